@@ -4,18 +4,24 @@ use crate::report::Ctx;
 use serde_json::Value;
 
 pub mod c14;
+pub mod c15;
 pub mod c17;
+pub mod c18;
 
 /// (property id, evidence level, check function)
 pub const REGISTRY: &[(&str, &str, fn(&mut Ctx))] = &[
     ("C14", "model_checking", c14::run),
+    ("C15", "model_checking", c15::run),
     ("C17", "model_checking", c17::run),
+    ("C18", "exploration", c18::run),
 ];
 
 pub fn replay(id: &str, case: &Value) -> Result<String, String> {
     match id {
         "C14" => c14::replay(case),
+        "C15" => c15::replay(case),
         "C17" => c17::replay(case),
+        "C18" => c18::replay(case),
         _ => Err(format!("no replayer for {id}")),
     }
 }
